@@ -190,7 +190,15 @@ def checkLayout (c : Case) : CaseResult := Id.run do
   | j :: _ =>
     let kind := match ccs[j]? with | some cc => ccKind cc | none => "?"
     let algo := str "algo"
-    let cls := if algo == "fdmf" then "makeFeasible-only"
+    -- repeated makeFeasible over the same constraint objects: was the constraint already violated
+    -- right after the FIRST call (then it is the first call's silent drop), or only after the second?
+    let bad1 := match parseRects c "out1" with
+      | some o1 => if o1.size == rects.size then violated tolC07 ccs (centres o1) reported else []
+      | none => []
+    let repeatAlgo := algo == "fdmf2" || algo == "fdmfre"
+    let cls := if repeatAlgo && str "planted" == "0" && !(bad1.contains j) then "makeFeasible-repeat,satisfiable"
+               else if repeatAlgo then "makeFeasible-only"
+               else if algo == "fdmf" then "makeFeasible-only"
                else if (algo == "fdrun" || algo == "fdmfrun") && !reported.isEmpty then "fd-run,over-constrained"
                else "other"
     return { verdict := .specfail s!"unreported-violation[{cls}] cc{j} {kind}: violated by more than 1e-4 and not in the unsatisfiable lists (reported: {reported}; all violated: {bad}; exc={exc})",
@@ -198,6 +206,12 @@ def checkLayout (c : Case) : CaseResult := Id.run do
   | [] =>
     if exc != "none" then
       return { verdict := .specfail s!"exception[{str "algo"}]: {exc} escaped the layout call (no constraint violation in the rectangles left behind; reported: {reported})", stats := stats }
+    let draggedBad := match parseRects c "dragged" with
+      | some d => if d.size == rects.size then !(violated tolC07 ccs (centres d) []).isEmpty else false
+      | none => false
+    if (c.get1 "dragged").isSome then
+      stats := bumpStats stats (if draggedBad then "repeat.dragged_violates" else "repeat.dragged_ok") 1
+      return { verdict := .ok, nontrivial := draggedBad, stats := stats }
     return { verdict := .ok, nontrivial := moved && !ccs.isEmpty, stats := stats }
 
 def checkSizes (c : Case) : CaseResult := Id.run do
